@@ -345,7 +345,7 @@ def run_dfs(ctx, programs, k, trace, limit, label):
 def run(ctx):
     ctx.set_budget(60, 840)
     ctx.assume("switching granularity: source lines of pipe.py/buffered_pipe.py and lock operations (not bytecodes)")
-    ctx.explore(case_st, lambda c: execute(ctx, c), ctx.scale(4000, 30000))
+    ctx.explore(case_st, lambda c: execute(ctx, c), ctx.scale(3500, 30000))
     progs = dfs_programs()
     if ctx.tier == "thorough":
         mine = progs[ctx.worker :: ctx.nworkers]
